@@ -62,8 +62,11 @@ def _numbagg_wrapper(
         func in ("nansum", "nanprod", "nansum_of_squares")
         and dtype is not None
         and array.dtype.kind in "iu"
-        and np.dtype(dtype).kind in "iuf"
-        and np.dtype(dtype).itemsize > array.dtype.itemsize
+        and (
+            # a floating accumulation dtype never wraps, whatever its width
+            np.dtype(dtype).kind == "f"
+            or (np.dtype(dtype).kind in "iu" and np.dtype(dtype).itemsize > array.dtype.itemsize)
+        )
     ):
         array = array.astype(dtype)
 
